@@ -8,6 +8,12 @@ HERE = os.path.dirname(os.path.dirname(os.path.abspath(__file__)))
 
 TECH = 'deterministic simulation with fault injection: seeded search over '
 
+STRICT = (' After the main batch a further eighth of the run indexes is '
+          'executed by the same code in a second interpreter started with '
+          'python -O and with warnings raised as errors (DESIGN.md 3.8a); a '
+          'replay file written there re-executes itself under that '
+          'configuration.')
+
 CLAIMED = {
     'C01': dict(
         level='exploration', ref='DESIGN.md section 4 C01',
@@ -281,7 +287,8 @@ def main():
             'evidence_file': 'evidence/%s.json' % pid,
             'replay_cmd_template': './check %s --replay {path}' % pid,
             'engine': 'oslo-dst',
-            'level_claimed': {'category': c['level'], 'text': c['text'],
+            'level_claimed': {'category': c['level'],
+                              'text': c['text'] + STRICT,
                               'design_ref': c['ref']},
             'level_note': c['note'],
             'technique': c['technique'],
@@ -319,7 +326,8 @@ def main():
             'this task: seeded per-component PRNG streams, simulated byte '
             'sources/files/clocks/schedulers behind the seams the code '
             'already has, fault catalogue, reference-model oracles, '
-            'minimiser, JSON replay files, process-parallel batch runner',
+            'minimiser, JSON replay files, process-parallel batch runner, '
+            'strict-interpreter pass (python -O, warnings as errors)',
         }],
         'checks': checks,
         'not_applicable': na,
